@@ -220,7 +220,7 @@ def _collide(_):
                     st.count('collision_frames')
                     for sig, msg in judge_collision(name, rows, d, pos):
                         st.violation({'kind': 'collide', 'constructor': name, 'rows': rows, 'derived': d, 'pos': pos}, msg, sig)
-    if st.n['collision_frames'] < 50:
+    if st.n['collision_frames'] < 50 and not st.violations:
         raise HarnessError('vacuous collision family')
     return st
 
